@@ -45,14 +45,26 @@ struct Knob {
     /// false: store built directly under this configuration; true: built under the default configuration,
     /// serialised to STAM JSON and loaded again under this configuration
     reload: bool,
+    /// 0: as above; 1: built and annotated under the default configuration, this configuration applied afterwards with
+    /// set_config(); 2: the resource is created with another text under this configuration and its text replaced with
+    /// TextResource::with_string() before it is added to the store
+    late: u8,
 }
 
 impl Knob {
     fn config(&self) -> Config {
         Config::default().with_milestone_interval(self.interval).with_shrink_to_fit(self.shrink)
     }
+    fn route(&self) -> &'static str {
+        match (self.reload, self.late) {
+            (true, _) => "reloaded",
+            (false, 1) => "set-config-later",
+            (false, 2) => "text-replaced",
+            _ => "direct",
+        }
+    }
     fn sig(&self) -> String {
-        format!("interval={}|shrink={}|{}", self.interval, self.shrink as u8, if self.reload { "reloaded" } else { "direct" })
+        format!("interval={}|shrink={}|{}", self.interval, self.shrink as u8, self.route())
     }
 }
 
@@ -61,8 +73,13 @@ fn knobs() -> Vec<Knob> {
     for reload in [false, true] {
         for shrink in [true, false] {
             for interval in INTERVALS {
-                v.push(Knob { interval, shrink, reload });
+                v.push(Knob { interval, shrink, reload, late: 0 });
             }
+        }
+    }
+    for late in [1u8, 2] {
+        for interval in INTERVALS {
+            v.push(Knob { interval, shrink: false, reload: false, late });
         }
     }
     v
@@ -79,11 +96,18 @@ fn range_of(p: (u16, u16), n: usize) -> (usize, usize) {
 
 /// the store for one knob setting: resource "r" plus (if `with_pre`) the unrelated annotations
 fn build(case: &Case, knob: &Knob, with_pre: bool, n: usize, sub: (usize, usize)) -> Result<AnnotationStore, String> {
-    let cfg = if knob.reload { Config::default() } else { knob.config() };
+    let cfg = if knob.reload || knob.late == 1 { Config::default() } else { knob.config() };
     let mut store = AnnotationStore::new(cfg);
-    store
-        .add_resource(TextResourceBuilder::new().with_id("r").with_text(case.text.clone()))
-        .map_err(|e| format!("add_resource: {}", e))?;
+    if knob.late == 2 {
+        // another text first (other byte layout, other length), then the real one
+        let other: String = case.text.chars().rev().chain("xé日😀".chars()).collect();
+        let resource = TextResource::from_string("r", other, knob.config()).with_string(case.text.clone());
+        store.insert(resource).map_err(|e| format!("insert resource: {}", e))?;
+    } else {
+        store
+            .add_resource(TextResourceBuilder::new().with_id("r").with_text(case.text.clone()))
+            .map_err(|e| format!("add_resource: {}", e))?;
+    }
     if with_pre {
         let mut ranges: Vec<(usize, usize)> = case.pre.iter().map(|p| range_of(*p, n)).collect();
         if case.pre_sub {
@@ -99,6 +123,9 @@ fn build(case: &Case, knob: &Knob, with_pre: bool, n: usize, sub: (usize, usize)
                 )
                 .map_err(|e| format!("annotate pre {:?}: {}", r, e))?;
         }
+    }
+    if knob.late == 1 {
+        store.set_config(knob.config());
     }
     if knob.reload {
         let json = store.to_json_string(&Config::default()).map_err(|e| format!("to_json_string: {}", e))?;
@@ -606,7 +633,7 @@ impl Property for C12 {
         "C12"
     }
     fn rule(&self) -> String {
-        "case = text of 0-64 codepoints over 1-4 byte characters, 0-8 unrelated annotations, a sub-selection (optionally itself annotated, so both Text implementations for selections are reached), a C04-style chain of 1-3 offsets and a needle. Every case is run under 24 knob settings (milestone interval {100,0,1,2,3,7} x shrink_to_fit {on,off} x {store built directly under the configuration, store serialised to JSON and loaded under the configuration}), each without and with the unrelated annotations. Part A: utf8byte for every position 0..=len+2 and utf8byte_to_charpos for every byte 0..=bytes+2 on the resource and (relative) on the sub-selection, plus text_by_offset, before and after the chain's annotations populated the position index, against a char_indices table. Part B: the complete observation (chain annotate results, texts, reported offsets in all modes, find_text on resource and selection, text_by_offset/textselection, related_text for 10 relations, all known selections, JSON output) must be identical under all 24 settings; its annotation-independent part must be identical with and without the unrelated annotations. Non-trivial = multi-byte text longer than 7 codepoints (so longer than every interval but 100) with >= 1 unrelated annotation; distinct = distinct case JSON.".into()
+        "case = text of 0-64 codepoints over 1-4 byte characters, 0-8 unrelated annotations, a sub-selection (optionally itself annotated, so both Text implementations for selections are reached), a C04-style chain of 1-3 offsets and a needle. Every case is run under 36 knob settings (milestone interval {100,0,1,2,3,7} x shrink_to_fit {on,off} x {store built directly under the configuration, store serialised to JSON and loaded under the configuration}, plus interval x {configuration applied with set_config() after the annotations exist, resource created with another text and replaced with TextResource::with_string()}), each without and with the unrelated annotations. Part A: utf8byte for every position 0..=len+2 and utf8byte_to_charpos for every byte 0..=bytes+2 on the resource and (relative) on the sub-selection, plus text_by_offset, before and after the chain's annotations populated the position index, against a char_indices table. Part B: the complete observation (chain annotate results, texts, reported offsets in all modes, find_text on resource and selection, text_by_offset/textselection, related_text for 10 relations, all known selections, JSON output) must be identical under all 24 settings; its annotation-independent part must be identical with and without the unrelated annotations. Non-trivial = multi-byte text longer than 7 codepoints (so longer than every interval but 100) with >= 1 unrelated annotation; distinct = distinct case JSON.".into()
     }
     fn assumptions(&self) -> Vec<String> {
         vec![
@@ -617,7 +644,7 @@ impl Property for C12 {
         ]
     }
     fn cases(&self, tier: Tier) -> u64 {
-        tier.pick(10_000, 150_000)
+        tier.pick(8_000, 120_000)
     }
     fn strategy(&self, _tier: Tier) -> BoxedStrategy<Case> {
         (
@@ -724,7 +751,7 @@ impl Property for C12 {
                     Ok(Err(e)) => {
                         out.fail(
                             "setup",
-                            format!("build|{}", if knob.reload { "reloaded" } else { "direct" }),
+                            format!("build|{}", knob.route()),
                             format!("text={:?} [{}] pre={}: {}", case.text, knob.sig(), with_pre, e),
                         );
                         continue;
